@@ -80,6 +80,18 @@ fn v3_connect_into_v5(c: v3::Connect, ctx: &mut Ctx) -> CaseResult {
         None => viol!("after the v5 poll decoder refused a {} CONNECT the caller-held state no longer holds the body: the refused CONNECT cannot be handed to the v3 family", proto),
     }
 
+    // the public slice entry point of the poll headers, called directly: same refusal, and the caller's slice stands
+    // right behind name and level, from where the matching family continues
+    {
+        use mqtt_proto::PollHeader;
+        let header = v5::Header::decode(&enc).map_err(|e| Violation::new(format!("v5 Header::decode failed on a v3 CONNECT frame: {:?}", e)))?;
+        let mut rest: &[u8] = &enc[hl..];
+        let r = header.block_decode(&mut rest);
+        ensure!(matches!(&r, Err(e) if *e == want), "v5 Header::block_decode on a {} CONNECT returned {:?} instead of Err({:?})", proto, r.map(|q| fam::render(&q)), want);
+        ensure!(enc.len() - rest.len() == gate, "v5 Header::block_decode refused a {} CONNECT with the caller's slice at byte {}; protocol name and level end at byte {}", proto, enc.len() - rest.len(), gate);
+        let cont = block_on(v3::Connect::decode_with_protocol(&mut rest, proto));
+        ensure!(matches!(&cont, Ok(c2) if *c2 == c) && rest.is_empty(), "continuing after v5 Header::block_decode with v3 decode_with_protocol({}) yields {:?}", proto, cont.map(|x| fam::render(&x)));
+    }
     partial_refusal::<V5>(&enc, gate, &want, &format!("{} CONNECT into the v5 family", proto), ctx)?;
     // a dispatcher that has read the protocol block itself and offers the rest to the wrong family's known-protocol
     // entry point gets the same typed refusal (not a panic, not a misparse), having consumed nothing more
@@ -179,6 +191,17 @@ fn v5_connect_into_v3(c: v5::Connect, ctx: &mut Ctx) -> CaseResult {
         None => viol!("after the v3 poll decoder refused a v5.0 CONNECT the caller-held state no longer holds the body: the refused CONNECT cannot be handed to the v5 family"),
     }
 
+    {
+        use mqtt_proto::PollHeader;
+        let h3 = v3::Header::decode(&enc).map_err(|e| Violation::new(format!("v3 Header::decode failed on a v5 CONNECT frame: {:?}", e)))?;
+        let mut rest: &[u8] = &enc[hl..];
+        let r = h3.block_decode(&mut rest);
+        ensure!(matches!(&r, Err(e) if *e == want), "v3 Header::block_decode on a v5.0 CONNECT returned {:?} instead of Err({:?})", r.map(|q| fam::render(&q)), want);
+        ensure!(enc.len() - rest.len() == gate, "v3 Header::block_decode refused a v5.0 CONNECT with the caller's slice at byte {}; protocol name and level end at byte {}", enc.len() - rest.len(), gate);
+        let header = v5::Header::decode(&enc).map_err(|e| Violation::new(format!("v5 Header::decode failed on a v5 CONNECT: {:?}", e)))?;
+        let cont = block_on(v5::Connect::decode_with_protocol(&mut rest, header, Protocol::V500));
+        ensure!(matches!(&cont, Ok(c2) if *c2 == c) && rest.is_empty(), "continuing after v3 Header::block_decode with v5 decode_with_protocol yields {:?}", cont.map(|x| fam::render(&x)));
+    }
     partial_refusal::<V3>(&enc, gate, &want, "v5.0 CONNECT into the v3 family", ctx)?;
     {
         let mut rest: &[u8] = &enc[gate..];
